@@ -375,6 +375,67 @@ def oracle_server_split(case):
     return Info(nt=True, classes=["server-split-exhaustive"], sample={"text": case["text"], "reads": reads})
 
 
+def server_concurrent_cases(tier):
+    for sizes in ([], [7], [3, 5, 11], [1, 1, 1, 1]):
+        yield {"sizes": sizes, "occurrences": 1 if tier == "quick" else 2}
+
+
+def oracle_server_concurrent(case):
+    """Two request handlers (two connections of a threaded server) read their bodies at the same
+    time: each must hand ITS body to the dispatcher, under every single preemption at a distinct
+    source line of SimpleJSONRPCServer.py"""
+    from vlib import detsched as D
+    import jsonrpclib.SimpleJSONRPCServer as S
+    from jsonrpclib.config import Config
+    from vlib.loopback import post_to_handler
+
+    files = [S.__file__]
+    bodies = [json.dumps({"jsonrpc": "2.0", "id": "c%d" % i, "method": "echo", "params": ["é€%d" % i, "x" * (20 + 13 * i)]}, ensure_ascii=False).encode("utf-8")
+              for i in range(2)]
+
+    def run_once(chooser):
+        disp = S.SimpleJSONRPCDispatcher(config=Config())
+        disp.register_function(lambda *a: list(a), "echo")
+        out = {}
+        sched = D.Scheduler(chooser, trace_files=files, max_steps=200000)
+
+        def main():
+            def work(i):
+                try:
+                    out[i] = post_to_handler(disp, bodies[i], list(case["sizes"]))
+                except Exception as ex:
+                    out[i] = ex
+            ts = [D.SimThread(target=work, args=(i,), name="h%d" % i) for i in range(2)]
+            for t in ts:
+                t.start()
+            for t in ts:
+                t.join()
+        sched.run(main)
+        return out
+
+    infos = []
+    n = 0
+    for pre, out, ch in D.single_preemption_sweep(run_once, max_points=1500, occurrences=case["occurrences"], threads=2):
+        n += 1
+        for i in range(2):
+            r = out.get(i)
+            if isinstance(r, Exception) or r is None:
+                fail("C17/server-reassembly:concurrent", "handler %d raised %r (one preemption at %r)" % (i, r, pre))
+            status, headers, reply, reads = r
+            want = json.loads(bodies[i].decode("utf-8"))
+            try:
+                got = json.loads(reply.decode("utf-8"))
+            except ValueError:
+                got = None
+            if not status.endswith("200 OK") or not isinstance(got, dict) or got.get("id") != want["id"] or got.get("result") != want["params"]:
+                fail("C17/server-reassembly:concurrent", "connection %d sent %r and was answered %r %r while another connection was being read (one preemption at %r)" % (
+                    i, want["id"], status, reply[:160], pre))
+        infos.append(Info(nt=pre is not None, classes=["server-concurrent"], key=(tuple(case["sizes"]), pre[:2] if pre else None),
+                          sample={"sizes": case["sizes"], "preempt-at": list(pre) if pre else None}))
+    infos.append(Info(classes=["server-concurrent-complete"], key=("sc", tuple(case["sizes"]), case["occurrences"]), sample={"schedules": n}))
+    return Info(multi=infos)
+
+
 # ---------------------------------------------------------------------------
 # CGI
 
@@ -577,6 +638,8 @@ SUBS = [
     Sub("server-splits", oracle_server_split, enumerate=server_split_cases, shards={"quick": 4, "thorough": 8},
         time_cap={"quick": 100, "thorough": 1500},
         what="every split of short multi-byte request bodies (+ bodies above 10 MiB in the thorough tier)"),
+    Sub("server-concurrent", oracle_server_concurrent, enumerate=server_concurrent_cases, shards={"quick": 4, "thorough": 4},
+        what="two request handlers reading their bodies concurrently (deterministic scheduler, single-preemption sweep)"),
     Sub("cgi", oracle_cgi, strategy=lambda tier: cgi_cases(),
         budget={"quick": 1500, "thorough": 20000}, shards={"quick": 2, "thorough": 4},
         what="CGI handler framing"),
@@ -590,5 +653,5 @@ CLAIM = {
     "text": "Generated-input search over URLs, content types, multi-byte bodies and read schedules; the request line/lengths/types captured from the real transport and handler code are compared with values computed from the URL text and the byte length; reassembly is checked against decoding of the whole for every generated (and, for short bodies, every possible) split.",
     "note": "Short reads on the server side are injected through the handler's rfile; http.client / http.server framing itself is trusted.",
     "design_ref": "DESIGN.md section 4, C17",
-    "engine": "E1+E3",
+    "engine": "E1+E2+E3",
 }
